@@ -298,11 +298,60 @@ def r07_4_slices(ctx):
     ctx.require_min("R07.4", 300)
 
 
+def r07_5_immutable_values(ctx):
+    ctx.rule("R07.5", "an ABI value or type spec is not changed by using it: element access, length(), get(), decode(), set(), encode() build expressions from the value's storage and type alone - no method other than __init__ assigns an attribute of the object (a holder or memo kept on the value is shared by expressions that are evaluated at different times)")
+    n_init = n_other = 0
+    for c in ctx.model.iter_classes():
+        if not c.module.name.startswith("pyteal.ast.abi") or c.module.name.endswith("_test"):
+            continue
+        for nm, f in c.methods.items():
+            for s in walk_local(f.node):
+                tg = s.targets if isinstance(s, ast.Assign) else ([s.target] if isinstance(s, (ast.AugAssign, ast.AnnAssign)) else [])
+                for x in tg:
+                    if isinstance(x, ast.Attribute) and u(x.value) == "self":
+                        if nm == "__init__":
+                            n_init += 1
+                            continue
+                        n_other += 1
+                        ctx.bad("R07.5", f"{c.name}.{nm}:self.{x.attr}", f"{c.name}.{nm} stores `self.{x.attr}`: the value object now carries state from an earlier use", f"{f.module.rel}:{s.lineno}")
+    q.need(n_init >= 12, f"only {n_init} attribute stores found in ABI constructors: the scan no longer sees the classes")
+    ctx.instances["R07.5"] = ctx.instances.get("R07.5", 0) + n_init
+    ctx.ok("R07.5", "abi-classes", {"stores_in_constructors": n_init, "stores_elsewhere": n_other}, "pyteal/ast/abi")
+
+
+def r07_6_access_buildable(ctx):
+    ctx.rule("R07.6", "length() and element access can be built for every array-like type, Address (whose length is an enumeration member, not a plain int) included: the repository's own value classes are interpreted, and the Int constructor's own checks decide what it accepts; length() of a fixed-length type is the constant of its type")
+    W = AbiWorld(ctx)
+    W.real_bases = {"BaseType"}
+    for shape, n in ((("address",), 32), (("bytes_static", 32), 32), (("sarr", ("uint", 8), 3), 3), (("sarr", ("bool",), 9), 9), (("sarr", ("string",), 2), 2), (("darr", ("uint", 16)), None), (("string",), None), (("bytes_dyn",), None)):
+        cname = arc4.class_of(shape).replace("TypeSpec", "")
+        c = ctx.model.find_class(cname)
+        inst = W.spec(shape).methods["new_instance"]()
+        try:
+            ln = inst.methods["length"]()
+            got = f"Int({intval(ln)})" if intval(ln) is not None else strip(ln)[:60]
+            ok = n is None or intval(ln) == n
+            why = f"length() is {got}" + (f"; the type has {n} elements" if n is not None else "")
+        except Raised as r:
+            ok, why = False, f"length() cannot be built: {r.exc_text[:70]}"
+        ctx.check(ok, "R07.6", f"{cname}.length[{arc4.sig(shape)}]", why, c.where, fact={})
+        for idx_name, idx in (("constant index", 0), ("computed index", Rec("name", "IDX"))):
+            try:
+                el = inst.methods["__getitem__"](idx)
+                ok2, why2 = True, "built"
+            except Raised as r:
+                ok2, why2 = False, f"cannot be built: {r.exc_text[:70]}"
+            ctx.check(ok2, "R07.6", f"{cname}[{idx_name}][{arc4.sig(shape)}]", f"{arc4.sig(shape)}[{idx_name}] {why2}", c.where, fact={})
+    ctx.require_min("R07.6", 20)
+
+
 def run(ctx):
     r07_1_index_tuple(ctx)
     r07_2_decoders(ctx)
     r07_3_array_element(ctx)
     r07_4_slices(ctx)
+    r07_5_immutable_values(ctx)
+    r07_6_access_buildable(ctx)
     from rules import c06 as _c06, c04 as _c04
 
     _c06.r06_1_descriptors(ctx)  # static lengths / dynamic-ness the walkers rely on (shared with C06)
